@@ -126,6 +126,14 @@ pub fn requests(reduced: bool) -> Vec<Req> {
         params: json!({"textDocument": {"uri": u("nope"), "version": 2}, "contentChanges": [{"text": "- ```\n"}]}),
         notification: true,
     });
+    // well-typed but without any change: the handler's `first().unwrap()` panics while the loop
+    // holds the server for writing (the panic is contained; the server must go on serving)
+    out.push(Req {
+        name: "didChange(no-changes)".into(),
+        method: "textDocument/didChange".into(),
+        params: json!({"textDocument": {"uri": u("1"), "version": 3}, "contentChanges": []}),
+        notification: true,
+    });
     out
 }
 
@@ -233,7 +241,7 @@ impl Engine for C12 {
         "C12"
     }
     fn rule(&self) -> String {
-        "request alphabet = every method the server handles (plus unknown methods and malformed params) x {URIs of loaded notes, unknown file, outside the library, percent-encoded} x {position in text, on a link, on a block reference, on a dangling reference, in a list item, past end of line, past end of file, u32::MAX} x rename names {free, taken, sub-directory} x code-action kinds x resolve data {ids, stale/huge id, non-number, negative, absent}, plus didChange notifications (so later ids are stale); all single messages and all ordered pairs on 2 libraries, executed on the real main_loop. Oracle after each request: worker joined (JoinHandle from the hooks), exactly one Response with its id; liveness probe answers like a fresh server; shutdown answered and exit ends main_loop with Ok. non-trivial = the request reached a handler (any response or a handler panic)".into()
+        "request alphabet = every method the server handles (plus unknown methods and malformed params) x {URIs of loaded notes, unknown file, outside the library, percent-encoded} x {position in text, on a link, on a block reference, on a dangling reference, in a list item, past end of line, past end of file, u32::MAX} x rename names {free, taken, sub-directory} x code-action kinds x resolve data {ids, stale/huge id, non-number, negative, absent}, plus didChange notifications (so later ids are stale; one of them without any change, whose handler panics while the server is held for writing); all single messages and all ordered pairs on 2 libraries, executed on the real main_loop. Oracle after each request: worker joined (JoinHandle from the hooks), exactly one Response with its id; liveness probe answers like a fresh server; shutdown answered and exit ends main_loop with Ok. non-trivial = the request reached a handler (any response or a handler panic)".into()
     }
     fn bound(&self, tier: Tier) -> String {
         match tier {
@@ -300,7 +308,9 @@ impl Engine for C12 {
                 let uri = r.params["textDocument"]["uri"].as_str().unwrap();
                 let key = uri.strip_prefix(&format!("file://{}/", BASE)).unwrap().strip_suffix(".md").unwrap().to_string();
                 if !panicked {
-                    cur.insert(key, r.params["contentChanges"][0]["text"].as_str().unwrap().to_string());
+                    if let Some(t) = r.params["contentChanges"][0]["text"].as_str() {
+                        cur.insert(key, t.to_string());
+                    }
                 }
                 // (a notification whose text the builder rejects is C03's finding, not C12's)
             } else {
